@@ -14,8 +14,8 @@ import time
 
 from .common import VERIF, stable_hash, to_json, repo_head
 
-EVIDENCE_DIR = os.path.join(VERIF, "evidence")
-REPLAY_DIR = os.path.join(VERIF, "replays")
+EVIDENCE_DIR = os.environ.get("BVF_EVIDENCE_DIR") or os.path.join(VERIF, "evidence")
+REPLAY_DIR = os.environ.get("BVF_REPLAY_DIR") or os.path.join(VERIF, "replays")
 KNOWN_FILE = os.path.join(VERIF, "known_findings.json")
 
 MAX_VIOLATIONS_KEPT = 25
